@@ -11,7 +11,7 @@ os.makedirs('/tmp/seed', exist_ok=True); os.makedirs(out, exist_ok=True)
 if not os.path.exists(wt):
     subprocess.check_call(['git', '-C', '/repo', 'worktree', 'add', '--detach', wt, 'HEAD'], stdout=subprocess.DEVNULL, stderr=subprocess.DEVNULL)
     subprocess.call(['cp', '-a', '/repo/target', wt + '/target'])
-print(f"""You are helping test a verification effort for the open-source Erg compiler (erg-lang/erg, Rust). You have your own scratch git worktree of the repository at {wt} (already created, with a warm `target/` directory). Work ONLY inside {wt} and {out}. Do NOT read or touch /repo or /verif, and do not look for any verification machinery: your work must be independent of it. There is no network; use `--offline` with cargo.
+print(f"""You are helping test a verification effort for the open-source Erg compiler (erg-lang/erg, Rust). You have your own scratch git worktree of the repository at {wt} (already created, with a warm `target/` directory). Work ONLY inside {wt} and {out}. Do NOT read or touch /repo or /verif, and do NOT use `git stash` (the stash is shared between worktrees: to revert use `git diff > my.patch; git apply -R my.patch` and re-apply with `git apply my.patch`). Do not look for any verification machinery: your work must be independent of it. There is no network; use `--offline` with cargo.
 
 Here is a semantic property of Erg that should hold true (JSON record):
 
